@@ -1,5 +1,482 @@
-use crate::util::{Args, Report};
-pub fn run(_a: &Args, _r: &mut Report) {
-    eprintln!("not implemented yet");
-    std::process::exit(2);
+//! C06 — trajectory decoding never emits a wrong position; aircraft do not interfere.
+use crate::oracle::{cpr, frames, geo};
+use crate::util::{fnv, guarded, hexs, msg_class, short_loc, Args, Report, Rng};
+use rs1090::decode::adsb::ME;
+use rs1090::decode::cpr::{decode_position, decode_positions, AircraftState, Position};
+use rs1090::decode::{Message, TimedMessage, DF, ICAO};
+use serde_json::json;
+use std::collections::BTreeMap;
+
+const KT: f64 = 1852.0 / 3600.0; // m/s per knot
+
+#[derive(Clone, Debug)]
+struct Rep {
+    ac: usize,
+    ts: f64,       // timestamp carried by the record
+    lat: f64,      // where the aircraft was when the report was encoded
+    lon: f64,
+    surface: bool,
+    odd: bool,
+    frame: Vec<u8>,
+    note: &'static str,
+}
+
+#[derive(Clone, Debug)]
+struct Plan {
+    icao: u32,
+    lat0: f64,
+    lon0: f64,
+    track: f64,
+    speed_kt: f64,
+    /// (time offset s, parity odd?, surface?) of each report to emit
+    reports: Vec<(f64, bool, bool)>,
+    /// ground phase: position frozen at the point reached at this offset, then taxiing at `taxi_kt`
+    land_at: Option<f64>,
+    taxi_kt: f64,
+}
+
+fn pos_at(p: &Plan, dt: f64) -> (f64, f64) {
+    match p.land_at {
+        Some(tl) if dt > tl => {
+            let (la, lo) = geo::dest(p.lat0, p.lon0, p.track, p.speed_kt * KT * tl);
+            geo::dest(la, lo, p.track, p.taxi_kt * KT * (dt - tl))
+        }
+        _ => geo::dest(p.lat0, p.lon0, p.track, p.speed_kt * KT * dt),
+    }
+}
+
+fn build_frame(icao: u32, lat: f64, lon: f64, odd: bool, surface: bool, rng: &mut Rng) -> Vec<u8> {
+    let e = cpr::encode(lat, lon, odd as u32, surface);
+    let me = if surface {
+        frames::me_surface(7, rng.range(1, 60) as u8, 1, rng.below(128) as u8, 0, odd as u8, e.yz, e.xz)
+    } else {
+        frames::me_airborne(11, 0, 0, frames::ac12_from_n(rng.range(100, 1700) as u16), 0, odd as u8, e.yz, e.xz)
+    };
+    frames::df17(5, icao, &me)
+}
+
+fn realise(plans: &[Plan], t0: f64, rng: &mut Rng, mess: bool) -> Vec<Rep> {
+    let mut all: Vec<Rep> = vec![];
+    for (i, p) in plans.iter().enumerate() {
+        let mut mine: Vec<Rep> = vec![];
+        for (dt, odd, surface) in &p.reports {
+            let (lat, lon) = pos_at(p, *dt);
+            if lat.abs() > 89.5 {
+                break;
+            }
+            let frame = build_frame(p.icao, lat, lon, *odd, *surface, rng);
+            mine.push(Rep { ac: i, ts: t0 + dt, lat, lon, surface: *surface, odd: *odd, frame, note: "" });
+            if mess && rng.chance(0.05) {
+                // duplicate reception re-stamped within 0.3 s
+                let mut d = mine.last().unwrap().clone();
+                d.ts += rng.uni(0.0, 0.3);
+                d.note = "duplicate";
+                mine.push(d);
+            }
+        }
+        if mess {
+            // timestamp swaps of neighbours less than 1 s apart (each keeps its content)
+            for k in 1..mine.len() {
+                if (mine[k].ts - mine[k - 1].ts).abs() < 1.0 && rng.chance(0.05) {
+                    let a = mine[k - 1].ts;
+                    mine[k - 1].ts = mine[k].ts;
+                    mine[k].ts = a;
+                    mine[k].note = "timestamp-swapped";
+                }
+            }
+        }
+        all.extend(mine);
+    }
+    all.sort_by(|a, b| a.ts.partial_cmp(&b.ts).unwrap());
+    if mess {
+        // delivery-order swaps of neighbours less than 1 s apart (each keeps its own timestamp)
+        for k in 1..all.len() {
+            if (all[k].ts - all[k - 1].ts).abs() < 1.0 && rng.chance(0.05) {
+                all.swap(k - 1, k);
+                all[k].note = "delivery-swapped";
+            }
+        }
+    }
+    all
+}
+
+fn to_timed(reps: &[Rep]) -> Vec<TimedMessage> {
+    reps.iter()
+        .map(|r| TimedMessage { timestamp: r.ts, frame: r.frame.clone(), message: Message::try_from(r.frame.as_slice()).ok(), metadata: vec![], decode_time: None })
+        .collect()
+}
+
+fn position_of(t: &TimedMessage) -> Option<(f64, f64)> {
+    match &t.message.as_ref()?.df {
+        DF::ExtendedSquitterADSB(a) => match &a.message {
+            ME::BDS05(p) => Some((p.latitude?, p.longitude?)),
+            ME::BDS06(p) => Some((p.latitude?, p.longitude?)),
+            _ => None,
+        },
+        _ => None,
+    }
+}
+
+fn run_batch(reps: &[Rep], reference: Option<Position>) -> Result<Vec<Option<(f64, f64)>>, (String, String)> {
+    let mut v = to_timed(reps);
+    guarded(|| {
+        decode_positions(&mut v, reference, &None);
+        v.iter().map(position_of).collect()
+    })
+}
+
+/// the step API, driven the way jet1090's main loop drives it
+fn run_step(reps: &[Rep], reference: Option<Position>) -> Result<Vec<Option<(f64, f64)>>, (String, String)> {
+    let mut v = to_timed(reps);
+    guarded(|| {
+        let mut aircraft: BTreeMap<ICAO, AircraftState> = BTreeMap::new();
+        for t in v.iter_mut() {
+            let ts = t.timestamp;
+            if let Some(m) = &mut t.message {
+                if let DF::ExtendedSquitterADSB(adsb) = &mut m.df {
+                    let mut r = reference;
+                    decode_position(&mut adsb.message, ts, &adsb.icao24, &mut aircraft, &mut r, &None);
+                }
+            }
+        }
+        v.iter().map(position_of).collect()
+    })
+}
+
+struct Stats {
+    reports: u64,
+    with_pos: u64,
+    surface_pos: u64,
+    max_err: f64,
+}
+
+fn judge(r: &mut Report, st: &mut Stats, reps: &[Rep], reference: Option<Position>, family: &str, plans: &[Plan]) {
+    r.evaluations += 1;
+    let rp = |k: usize| {
+        json!({"family": family, "reference": reference.map(|p| [p.latitude, p.longitude]), "failing_report": k,
+               "history": reps.iter().map(|x| json!({"ts": x.ts, "frame": hexs(&x.frame), "truth": [x.lat, x.lon], "note": x.note})).collect::<Vec<_>>()})
+    };
+    let use_step = family.ends_with("/step");
+    let out = if use_step { run_step(reps, reference) } else { run_batch(reps, reference) };
+    let out = match out {
+        Err((loc, msg)) => {
+            r.violation(&format!("C06:panic:{}", short_loc(&loc)), format!("trajectory decoding panicked ({family}): {}", msg_class(&msg)), rp(0));
+            return;
+        }
+        Ok(o) => o,
+    };
+    let mut ok = true;
+    for (k, (rep, got)) in reps.iter().zip(&out).enumerate() {
+        st.reports += 1;
+        if let Some((la, lo)) = got {
+            st.with_pos += 1;
+            if rep.surface {
+                st.surface_pos += 1;
+            }
+            let d = geo::dist_m(rep.lat, rep.lon, *la, *lo);
+            if !(d <= 25.0) {
+                ok = false;
+                let fmt = if rep.surface { "surface" } else { "airborne" };
+                let fam = family.split('/').next().unwrap_or(family);
+                r.violation(&format!("C06:wrong-position:{fmt}:{fam}"), format!("{family}: report {k} of {:06x} ({fmt}, {}) encoded at ({:.6},{:.6}) came out at ({:.6},{:.6}) = {:.0} m away", plans[rep.ac].icao, rep.note, rep.lat, rep.lon, la, lo, d), rp(k));
+                break;
+            } else if d > st.max_err {
+                st.max_err = d;
+            }
+        }
+    }
+    // non-interference: every aircraft alone must give bit-identical results
+    if plans.len() > 1 && ok {
+        for ac in 0..plans.len() {
+            let idx: Vec<usize> = (0..reps.len()).filter(|k| reps[*k].ac == ac).collect();
+            let alone: Vec<Rep> = idx.iter().map(|k| reps[*k].clone()).collect();
+            let o2 = if use_step { run_step(&alone, reference) } else { run_batch(&alone, reference) };
+            if let Ok(o2) = o2 {
+                for (j, k) in idx.iter().enumerate() {
+                    let same = match (&out[*k], &o2[j]) {
+                        (None, None) => true,
+                        (Some(a), Some(b)) => a.0.to_bits() == b.0.to_bits() && a.1.to_bits() == b.1.to_bits(),
+                        _ => false,
+                    };
+                    if !same {
+                        ok = false;
+                        r.violation("C06:interference", format!("{family}: report {k} of {:06x} decodes to {:?} when interleaved with other aircraft and to {:?} alone", plans[ac].icao, out[*k], o2[j]), rp(*k));
+                        break;
+                    }
+                }
+            }
+            if !ok {
+                break;
+            }
+        }
+        if ok {
+            r.class("non-interference:interleaved==alone");
+        }
+    }
+    if ok {
+        r.class(&format!("family:{family}"));
+        let h = reps.iter().fold(0u64, |h, x| h.rotate_left(5) ^ fnv(&x.frame) ^ x.ts.to_bits());
+        r.distinct(h);
+    }
+}
+
+fn gap(rng: &mut Rng, r: &mut Report) -> f64 {
+    match rng.below(20) {
+        0..=11 => rng.uni(0.4, 0.6),
+        12 | 13 => {
+            r.class("gap:8.5-11.5s(pairing window)");
+            rng.uni(8.5, 11.5)
+        }
+        14 | 15 => {
+            r.class("gap:11-60s");
+            rng.uni(11.0, 60.0)
+        }
+        16 | 17 => {
+            r.class("gap:170-190s(reference window)");
+            rng.uni(170.0, 190.0)
+        }
+        _ => {
+            r.class("gap:200-4000s");
+            rng.uni(200.0, 4000.0)
+        }
+    }
+}
+
+fn start_point(rng: &mut Rng, tr: &[f64]) -> (f64, f64, &'static str) {
+    match rng.below(8) {
+        0 => {
+            let t = tr[rng.below(tr.len() as u64) as usize] * if rng.chance(0.5) { 1.0 } else { -1.0 };
+            ((t + rng.uni(-0.3, 0.3)).clamp(-88.0, 88.0), rng.uni(-180.0, 180.0), "start:near-NL-transition")
+        }
+        1 => (rng.uni(-0.5, 0.5), rng.uni(-180.0, 180.0), "start:near-equator"),
+        2 => (rng.uni(-80.0, 80.0), if rng.chance(0.5) { rng.uni(179.0, 180.0) - 1e-9 } else { rng.uni(-180.0, -179.0) }, "start:near-antimeridian"),
+        3 => (6.0 * rng.range(-13, 13) as f64 + rng.uni(-0.3, 0.3), rng.uni(-180.0, 180.0), "start:near-latitude-zone-edge"),
+        4 => (rng.uni(80.0, 88.5) * if rng.chance(0.5) { 1.0 } else { -1.0 }, rng.uni(-180.0, 180.0), "start:polar"),
+        _ => (rng.uni(-1.0, 1.0).asin().to_degrees().clamp(-88.0, 88.0), rng.uni(-180.0, 180.0), "start:area-uniform"),
+    }
+}
+
+fn random_scenario(r: &mut Report, st: &mut Stats, rng: &mut Rng, tr: &[f64], step: bool) {
+    let nac = rng.range(1, 4) as usize;
+    let with_surface = rng.chance(0.35);
+    let t0 = 1.6e9 + rng.uni(0.0, 1e6);
+    // receiver reference (fixed); surface aircraft end their flight within 38 NM of it
+    let (rlat, rlon, _) = start_point(rng, tr);
+    let reference = if with_surface || rng.chance(0.5) { Some(Position { latitude: rlat, longitude: rlon }) } else { None };
+    let mut plans = vec![];
+    for a in 0..nac {
+        let speed = if rng.chance(0.2) { 700.0 } else { rng.uni(50.0, 700.0) };
+        let track = match rng.below(6) {
+            0 => 0.0,
+            1 => 90.0,
+            2 => 180.0,
+            3 => 270.0,
+            _ => rng.uni(0.0, 360.0),
+        };
+        let lands = with_surface && (a == 0 || rng.chance(0.5));
+        let n = rng.range(10, 120) as usize;
+        let mut reports = vec![];
+        let mut t = rng.uni(0.0, 5.0);
+        let n_air = if lands { rng.range(4, n as i64 - 2) as usize } else { n };
+        let mut odd = rng.chance(0.5);
+        for k in 0..n {
+            if k > 0 {
+                t += gap(rng, r);
+            }
+            odd = if rng.chance(0.8) { !odd } else { rng.chance(0.5) };
+            if rng.chance(0.15) {
+                continue; // dropped
+            }
+            reports.push((t, odd, k >= n_air));
+        }
+        let (lat0, lon0, land_at, cls) = if lands {
+            // touch-down point within 38 NM of the receiver; fly backwards from it
+            let t_land = reports.iter().filter(|x| !x.2).map(|x| x.0).fold(0.0, f64::max) + 0.2;
+            let (tl_lat, tl_lon) = geo::dest(rlat, rlon, rng.uni(0.0, 360.0), rng.uni(0.0, 36.0) * geo::NM);
+            let back = geo::dest(tl_lat, tl_lon, (track + 180.0) % 360.0, speed * KT * t_land);
+            // initial bearing at the start so that the great circle passes through the touch-down point
+            let brg = geo::bearing(back.0, back.1, tl_lat, tl_lon);
+            plans.push(Plan { icao: 0x400000 + a as u32 * 0x1111 + rng.below(0x1000) as u32, lat0: back.0, lon0: back.1, track: brg, speed_kt: speed, reports: reports.clone(), land_at: Some(t_land), taxi_kt: rng.uni(0.0, 30.0) });
+            r.class("phase:airborne->surface");
+            continue;
+        } else {
+            let (la, lo, cls) = start_point(rng, tr);
+            (la, lo, None, cls)
+        };
+        r.class(cls);
+        plans.push(Plan { icao: 0x400000 + a as u32 * 0x1111 + rng.below(0x1000) as u32, lat0, lon0, track, speed_kt: speed, reports, land_at, taxi_kt: 0.0 });
+    }
+    // a landing aircraft whose (backwards-computed) path strays beyond 89.5 deg is cut by realise()
+    let reps = realise(&plans, t0, rng, true);
+    if reps.is_empty() {
+        return;
+    }
+    // surface reports must be within 40 NM of the reference, as the property states; drop the scenario otherwise
+    if let Some(rf) = reference {
+        if reps.iter().any(|x| x.surface && geo::dist_m(x.lat, x.lon, rf.latitude, rf.longitude) > 40.0 * geo::NM) {
+            r.class("scenario-skipped(surface report beyond 40 NM of the receiver)");
+            return;
+        }
+    }
+    // crossings actually present in this history
+    for a in 0..plans.len() {
+        let mine: Vec<&Rep> = reps.iter().filter(|x| x.ac == a).collect();
+        for w in mine.windows(2) {
+            if (w[0].lat / 6.0).floor() != (w[1].lat / 6.0).floor() {
+                r.class("crossing:latitude-zone");
+            }
+            if geo::nl(w[0].lat) != geo::nl(w[1].lat) {
+                r.class("crossing:NL-band");
+            }
+            if (w[0].lat < 0.0) != (w[1].lat < 0.0) {
+                r.class("crossing:equator");
+            }
+            if (w[0].lon - w[1].lon).abs() > 180.0 {
+                r.class("crossing:antimeridian");
+            }
+        }
+    }
+    judge(r, st, &reps, reference, if step { "random/step" } else { "random/batch" }, &plans);
+}
+
+/// deterministic hostile histories aimed at the decoder's windows and aliases
+fn hostile(r: &mut Report, st: &mut Stats, rng: &mut Rng, which: u64) {
+    let t0 = 1.7e9;
+    let icao = 0x4b1800 + (which as u32 & 0xff);
+    match which % 6 {
+        0 => {
+            // surface report exactly k zones away from a stale airborne fix, receiver 10 NM from the truth
+            let lat0 = rng.uni(-60.0, 60.0);
+            let lon0 = rng.uni(-170.0, 170.0);
+            let gap = *rng.pick(&[200.0, 470.0, 600.0, 1000.0, 4000.0]);
+            let odd = rng.chance(0.5);
+            let zone = 90.0 / (60.0 - odd as i32 as f64);
+            let k = if rng.chance(0.5) { 1.0 } else { -1.0 };
+            // fix, silence, then the aircraft is on the ground one latitude zone further
+            let (la1, lo1) = (lat0 + k * zone, lon0);
+            let need_kt = geo::dist_m(lat0, lon0, la1, lo1) / gap / KT;
+            if need_kt > 700.0 {
+                r.class("hostile:surface-alias(skipped: would need more than 700 kt)");
+                return;
+            }
+            let rf = geo::dest(la1, lo1, rng.uni(0.0, 360.0), 10.0 * geo::NM);
+            let reference = Some(Position { latitude: rf.0, longitude: rf.1 });
+            let mut reps = vec![];
+            for (j, (dt, o)) in [(0.0, false), (0.5, true), (1.0, false)].iter().enumerate() {
+                let _ = j;
+                reps.push(Rep { ac: 0, ts: t0 + dt, lat: lat0, lon: lon0, surface: false, odd: *o, frame: build_frame(icao, lat0, lon0, *o, false, rng), note: "airborne fix" });
+            }
+            for j in 0..3 {
+                reps.push(Rep { ac: 0, ts: t0 + gap + j as f64 * 0.5, lat: la1, lon: lo1, surface: true, odd, frame: build_frame(icao, la1, lo1, odd, true, rng), note: "surface, one zone away from the stale fix" });
+            }
+            let plan = Plan { icao, lat0, lon0, track: 0.0, speed_kt: need_kt, reports: vec![], land_at: None, taxi_kt: 0.0 };
+            judge(r, st, &reps, reference, "hostile:surface-alias-of-stale-fix", &[plan]);
+        }
+        1 | 2 => {
+            // even/odd pairs 9.5-10.5 s apart at 700 kt straight across a latitude-zone edge / NL transition
+            let tr = geo::transitions();
+            let edge = if which % 6 == 1 { 6.0 * rng.range(-13, 13) as f64 } else { tr[rng.below(tr.len() as u64) as usize] * if rng.chance(0.5) { 1.0 } else { -1.0 } };
+            let north = rng.chance(0.5);
+            let lat0 = (edge + if north { -0.02 } else { 0.02 } * rng.uni(0.2, 1.0)).clamp(-88.0, 88.0);
+            let lon0 = rng.uni(-179.0, 179.0);
+            let mut reports = vec![];
+            let mut t = 0.0;
+            let mut odd = false;
+            for _ in 0..12 {
+                reports.push((t, odd, false));
+                odd = !odd;
+                t += rng.uni(9.5, 10.5);
+            }
+            let plan = Plan { icao, lat0, lon0, track: if north { 0.0 } else { 180.0 }, speed_kt: 700.0, reports, land_at: None, taxi_kt: 0.0 };
+            let reps = realise(&[plan.clone()], t0, rng, false);
+            judge(r, st, &reps, None, if which % 6 == 1 { "hostile:10s-pairs-across-latitude-zone-edge" } else { "hostile:10s-pairs-across-NL-transition" }, &[plan]);
+        }
+        3 => {
+            // long silence, then a single report one airborne zone (360/NL deg or 6 deg) away, then its partner
+            let lat0 = rng.uni(-50.0, 50.0);
+            let lon0 = rng.uni(-170.0, 170.0);
+            let gap = rng.uni(1900.0, 4000.0);
+            let track = *rng.pick(&[0.0, 90.0, 180.0, 270.0]);
+            let zone_m = 6.0 * 111_195.0;
+            let speed = (zone_m / gap / KT).min(700.0);
+            let reports = vec![(0.0, false, false), (0.5, true, false), (1.0, false, false), (gap, true, false), (gap + 0.5, false, false), (gap + 1.0, true, false), (gap + 100.0, false, false), (gap + 279.0, true, false)];
+            let plan = Plan { icao, lat0, lon0, track, speed_kt: speed, reports, land_at: None, taxi_kt: 0.0 };
+            let reps = realise(&[plan.clone()], t0, rng, false);
+            judge(r, st, &reps, None, "hostile:one-zone-jump-after-long-silence", &[plan]);
+        }
+        4 => {
+            // eastbound / westbound across the antimeridian with gaps around both windows
+            let lat0 = rng.uni(-75.0, 75.0);
+            let east = rng.chance(0.5);
+            let lon0 = if east { 179.9 - rng.uni(0.0, 0.3) } else { -179.9 + rng.uni(0.0, 0.3) };
+            let mut reports = vec![];
+            let mut t = 0.0;
+            let mut odd = false;
+            for k in 0..40 {
+                reports.push((t, odd, false));
+                odd = !odd;
+                t += if k % 7 == 6 { rng.uni(170.0, 190.0) } else if k % 5 == 4 { rng.uni(9.0, 11.0) } else { 0.5 };
+            }
+            let plan = Plan { icao, lat0, lon0, track: if east { 90.0 } else { 270.0 }, speed_kt: rng.uni(300.0, 700.0), reports, land_at: None, taxi_kt: 0.0 };
+            let reps = realise(&[plan.clone()], t0, rng, false);
+            judge(r, st, &reps, None, "hostile:antimeridian-crossing", &[plan]);
+        }
+        _ => {
+            // two aircraft whose addresses differ in one bit, positions one zone apart, perfectly interleaved
+            let lat0 = rng.uni(-50.0, 50.0);
+            let lon0 = rng.uni(-170.0, 170.0);
+            let mut plans = vec![];
+            for a in 0..2u32 {
+                let mut reports = vec![];
+                let mut t = a as f64 * 0.25;
+                let mut odd = a == 1;
+                for _ in 0..30 {
+                    reports.push((t, odd, false));
+                    odd = !odd;
+                    t += 0.5;
+                }
+                plans.push(Plan { icao: 0x3c6580 | a, lat0: lat0 + a as f64 * 6.0, lon0, track: 90.0, speed_kt: 450.0, reports, land_at: None, taxi_kt: 0.0 });
+            }
+            let reps = realise(&plans, t0, rng, false);
+            judge(r, st, &reps, None, "hostile:two-aircraft-one-zone-apart-interleaved", &plans);
+        }
+    }
+}
+
+pub fn run(a: &Args, r: &mut Report) {
+    r.rule = "random family: 1-4 aircraft, 50-700 kt, great-circle dead reckoning, ~2 Hz reports with mostly alternating parity, 15 % drops, 5 % duplicates re-stamped within 0.3 s, gaps at 0.5 s / 8.5-11.5 s / 11-60 s / 170-190 s / 200-4000 s, 5 % delivery-order and timestamp swaps of neighbours < 1 s apart, starts biased to NL transitions, equator, antimeridian, latitude-zone edges, polar caps; 35 % of scenarios with an airborne->surface transition within 38 NM of a fixed receiver reference; real DF17 frames (TC 11 / TC 7) built by the independent CPR encoder + CRC, decoded by Message::try_from, then decode_positions (batch) or decode_position (step, 25 %). hostile family: deterministic histories on CPR aliases and window edges. Every emitted lat/lon is compared with the encoding-time truth (25 m); each aircraft alone must decode bit-identically. distinct = distinct histories with a correct verdict".into();
+    r.assumptions.push("'locally swapped' = neighbours less than 1 s apart; duplicates re-stamped within 0.3 s; surface reports only within 40 NM of the receiver reference".into());
+    let mut st = Stats { reports: 0, with_pos: 0, surface_pos: 0, max_err: 0.0 };
+    let tr = geo::transitions();
+    if let Some(p) = &a.replay {
+        let v: serde_json::Value = serde_json::from_str(&std::fs::read_to_string(p).unwrap()).unwrap();
+        let rp = &v["replay"];
+        let reps: Vec<Rep> = rp["history"].as_array().unwrap().iter().map(|h| {
+            let f = hex::decode(h["frame"].as_str().unwrap()).unwrap();
+            let tc = f[4] >> 3;
+            Rep { ac: 0, ts: h["ts"].as_f64().unwrap(), lat: h["truth"][0].as_f64().unwrap(), lon: h["truth"][1].as_f64().unwrap(), surface: (5..=8).contains(&tc), odd: false, frame: f, note: "replay" }
+        }).collect();
+        let reference = rp["reference"].as_array().map(|x| Position { latitude: x[0].as_f64().unwrap(), longitude: x[1].as_f64().unwrap() });
+        let plan = Plan { icao: 0, lat0: 0.0, lon0: 0.0, track: 0.0, speed_kt: 0.0, reports: vec![], land_at: None, taxi_kt: 0.0 };
+        // all aircraft of the history share plan 0 for the purpose of the message text
+        judge(r, &mut st, &reps, reference, rp["family"].as_str().unwrap_or("replay/batch"), &[plan]);
+        return;
+    }
+    let mut rng = Rng::new(a.seed, a.shard, "C06");
+    let n = a.budget(40_000, 2_000_000);
+    for i in 0..n {
+        random_scenario(r, &mut st, &mut rng, &tr, i % 4 == 3);
+        if i == 0 {
+            r.sample(json!({"family": "random", "note": "see replays/ for a full history; each record = (timestamp, DF17 frame hex, truth)"}));
+        }
+    }
+    let nh = a.budget(16_000, 640_000);
+    for i in 0..nh {
+        hostile(r, &mut st, &mut rng, i * a.nshards + a.shard);
+    }
+    r.class_n("reports:total", st.reports);
+    r.class_n("reports:with-position", st.with_pos);
+    r.class_n("reports:surface-with-position", st.surface_pos);
+    r.max("error_m", st.max_err);
+    r.extra.insert("mandatory".into(), json!(["family:random/batch", "family:random/step", "family:hostile:10s-pairs-across-latitude-zone-edge", "family:hostile:antimeridian-crossing", "non-interference:interleaved==alone", "reports:surface-with-position", "crossing:NL-band", "crossing:antimeridian", "crossing:equator", "gap:170-190s(reference window)", "gap:8.5-11.5s(pairing window)", "phase:airborne->surface"]));
 }
